@@ -139,6 +139,13 @@ theorem firstLen_ident {nm : Bytes} (hn : IsIdent nm) (rest : Bytes) (hr : NameS
     · next heq => simp at heq; exact absurd heq.1 hne
     · exact hnc
 
+/-- an identifier does not start with `*`: the `starNoPrefix` branch of `nameTestWith` is never taken for printed names -/
+theorem ident_head_not_star {nm : Bytes} (hn : IsIdent nm) (rest : Bytes) : ((nm ++ rest).head? == some 42) = false := by
+  cases hn with
+  | mk c t hc ht =>
+    have hstar : (c == 42) = false := (identStart_ne hc).2.2.2.2.2.2.2.2.2.2.2.2.2.2.2.2.2.2.2
+    simpa using hstar
+
 theorem nameTest_ident {nm : Bytes} (hn : IsIdent nm) (rest : Bytes)
     (hr : rest = [] ∨ ∃ c r, rest = c :: r ∧ (c = 47 ∨ c = 91 ∨ c = 61)) :
     nameTest (nm ++ rest) = some (nm, rest) := by
@@ -146,7 +153,8 @@ theorem nameTest_ident {nm : Bytes} (hn : IsIdent nm) (rest : Bytes)
     rcases hr with h | ⟨c, r, h, hc⟩
     · exact Or.inl h
     · exact Or.inr ⟨c, r, h, by rcases hc with h | h | h <;> simp [h]⟩
-  simp only [nameTest, firstLen_ident hn rest hstop, nameTestAfter, List.drop_left, List.take_left]
+  simp only [nameTest, nameTestWith, firstLen_ident hn rest hstop, ident_head_not_star hn rest, Bool.and_false, Bool.false_eq_true,
+    if_false, nameTestAfter, List.drop_left, List.take_left]
   rcases hr with rfl | ⟨d, r, rfl, hd⟩
   · rfl
   · rcases hd with rfl | rfl | rfl <;> rfl
@@ -161,7 +169,8 @@ theorem nameTest_prefixed {m nm : Bytes} (hm : IsIdent m) (hn : IsIdent nm) (res
   have h1 : firstLen (m ++ (58 :: nm ++ rest)) = some m.length :=
     firstLen_ident hm _ (Or.inr ⟨58, nm ++ rest, rfl, by simp⟩)
   have h2 : ncname (nm ++ rest) = some nm.length := ncname_ident hn rest hstop
-  simp only [nameTest, h1, nameTestAfter, List.drop_left]
+  simp only [nameTest, nameTestWith, h1, ident_head_not_star hm (58 :: nm ++ rest), Bool.and_false, Bool.false_eq_true, if_false,
+    nameTestAfter, List.drop_left]
   cases hn with
   | mk c2 t2 hc2 ht2 =>
     have hne2 : c2 ≠ 58 := by
